@@ -1133,7 +1133,7 @@ fn check_injection(rep: &mut Report, rng: &mut Rng, idx: u64) {
 /// `PatternEncoder::new("")`), a pattern that is only a newline, only `kind`, an empty section.
 fn edge_encoder_cases(rep: &mut Report, _rng: &mut Rng, idx: u64) {
     let fmt = ["yaml", "json", "toml"][(idx % 3) as usize];
-    let shape = (idx / 3) % 5;
+    let shape = (idx / 3) % 7;
     let sc = Scratch::new("c14e");
     let dir = sc.path.to_str().unwrap().to_owned();
     let (enc_doc, reference): (Value, Box<dyn log4rs::encode::Encode>) = match shape {
@@ -1141,6 +1141,8 @@ fn edge_encoder_cases(rep: &mut Report, _rng: &mut Rng, idx: u64) {
         1 => (json!({"kind": "pattern", "pattern": ""}), Box::new(PatternEncoder::new(""))),
         2 => (json!({"pattern": "{n}"}), Box::new(PatternEncoder::new("{n}"))),
         3 => (json!({"kind": "pattern"}), Box::new(PatternEncoder::default())),
+        5 => (json!({"pattern": "{l} {m}\n"}), Box::new(PatternEncoder::new("{l} {m}\n"))),
+        6 => (json!({"pattern": " {m} \t\n\n"}), Box::new(PatternEncoder::new(" {m} \t\n\n"))),
         _ => (json!({"pattern": "{m}"}), Box::new(PatternEncoder::new("{m}"))),
     };
     let doc = json!({"appenders": {"f": {"kind": "file", "path": format!("{}/from_document.log", dir), "encoder": enc_doc}},
@@ -1209,7 +1211,7 @@ pub fn run(rep: &mut Report) {
     let thorough = rep.tier == "thorough";
     run_cases(rep, "equivalence", if thorough { 4000 } else { 400 }, check_equivalence);
     run_cases(rep, "injection", if thorough { 40_000 } else { 8_000 }, check_injection);
-    run_cases(rep, "edge-encoder", 15, edge_encoder_cases);
+    run_cases(rep, "edge-encoder", 21, edge_encoder_cases);
     rep.require(rep.counter("format_sets_compared") > 50, "fewer than 50 complete format sets compared");
     rep.require(rep.counter("rolling_layouts_compared") > 20, "fewer than 20 rolling layouts compared");
     rep.require(rep.set_size("injection_kinds") >= 20, "fewer than 20 injection kinds exercised");
